@@ -201,7 +201,7 @@ func C20(t Tier) int {
 			if j := strings.Index(line, "\n"); j > 0 {
 				line = line[:j]
 			}
-			run.Add(report.Viol{Kind: "snapshot-read", Sig: "snapshot-read:concurrent:" + firstWords(line[len("SNAPSHOT VIOLATION: "):], 6), Msg: "concurrent queries while blocks are executed between rounds: " + line, Replay: map[string]any{"check": "C20-race", "cmd": "bin/ksrace " + iters}})
+			run.Add(report.Viol{Kind: "concurrent-use", Sig: "concurrent-use:" + firstWords(line[len("SNAPSHOT VIOLATION: "):], 6), Msg: "free-running concurrent pass: " + line, Replay: map[string]any{"check": "C20-race", "cmd": "bin/ksrace " + iters}})
 			race["result"] = "snapshot violation under concurrent queries"
 		case rerr != nil:
 			fmt.Fprintf(os.Stderr, "HARNESS ERROR: ksrace failed: %v\n%s\n", rerr, firstN(s, 2000))
@@ -247,7 +247,12 @@ func firstN(s string, n int) string {
 func raceSite(rep string) string {
 	for _, line := range strings.Split(rep, "\n") {
 		l := strings.TrimSpace(line)
-		if strings.HasPrefix(l, "/repo/") {
+		repo := "/repo/"
+		if r := os.Getenv("VERIF_REPO"); r != "" {
+			repo = strings.TrimSuffix(r, "/") + "/"
+		}
+		if strings.HasPrefix(l, repo) {
+			l = "/repo/" + strings.TrimPrefix(l, repo)
 			if i := strings.Index(l, " "); i > 0 {
 				l = l[:i]
 			}
